@@ -10,7 +10,7 @@ from harness import gen
 from harness.framework import Suite
 
 PID = "C19"
-LEAN_MODS = ["SwcVerif.Props.C19", "SwcVerif.Props.C19Gen"]
+LEAN_MODS = ["SwcVerif.Props.C19", "SwcVerif.Props.C19Gen", "SwcVerif.Props.C19Front"]
 TRANSLATE_ALGO = ["AlgoPopulation", "AlgoPopFront"]    # Gen/AlgoPopulation.lean, Gen/AlgoPopFront.lean are regenerated from swcgeom/core/population.py on every run
 DRIVER_FILES = ["SwcVerif/Model/AlgoRunPopulation.lean", "SwcVerif/Model/AlgoRunPopFront.lean"]
 THEOREMS = [
@@ -19,6 +19,9 @@ THEOREMS = [
     # refinement: the methods generated from population.py on this run compute what the models compute
     "RefinePop.getIdx_refines", "RefinePop.nest_refines", "RefinePop.bsearch_refines", "RefinePop.load_refines", "RefinePop.getitem_refines",
     "C19.generated_chain_init", "C19.generated_chain_len", "C19.generated_chain_getitem", "C19.genGets_refines", "C19.generated_load_at_most_once",
+    # the front end (Gen/AlgoPopFront.lean): Population.__init__ / __getitem__ (int, slice) / __len__, NestTrees over the lazy container
+    "RefinePopFront.pop_len_refines", "RefinePopFront.pop_getitem_int_refines", "RefinePopFront.pop_init_refines", "RefinePopFront.nestl_getitem_refines",
+    "RefinePopFront.pop_getitem_slice_refines", "C19.generated_pop_getitem", "C19.frontStep_inv", "C19.generated_front_load_at_most_once",
 ]
 TRUSTED = ["hand-written models Model/Population.lean of _get_idx / LazyLoadingTrees / ChainTrees / NestTrees / Population construction "
            "(tied by the c19.lazy and c19.chain correspondence: returned file and read log compared exactly for every operation script)"]
